@@ -1,6 +1,7 @@
 #!/bin/bash
-# Build the whole Lean library and every line-protocol driver, offline.
+# Build every claimed property file (models, lemmas, theorems) and every line-protocol driver, offline.
 cd "$(dirname "$0")/../lean" || exit 2
 exes=$(grep -A1 '^\[\[lean_exe\]\]' lakefile.toml | sed -n 's/^name = "\(.*\)"/\1/p')
+props=$(for p in $(cat ../CLAIMED); do [ -f Invoke/Props/$p.lean ] && echo Invoke.Props.$p; done)
 mkdir -p .lake
-flock .lake/verif.lock lake build Invoke $exes
+flock .lake/verif.lock lake build $props $exes
